@@ -140,6 +140,19 @@ def F14():
         return False
     return "Option('A', default=5) under {'A': '{B}'} (B missing) returned the default %r although A is present" % (v,)
 
+def F15():
+    from labrea.template import Template
+    from labrea.types import Value
+    t = Template("{:p:}!", p=Value("{X}"))
+    got = t({"X": "secret"})
+    keys = t.keys({"X": "secret"})
+    try:
+        t.validate({})
+        t({})
+        return False
+    except Exception as e:
+        return (got == "secret!" and keys == set()) and "Template('{:p:}!', p=Value('{X}')): evaluate reads option X (%r), keys() == %r, validate({}) passes, evaluate({}) -> %s" % (got, keys, type(e).__name__)
+
 if __name__ == "__main__":
     names = sys.argv[1:] or [n for n in sorted(globals()) if n[0] == "F" and n[1:].rstrip("b").isdigit()]
     for n in names:
